@@ -80,6 +80,15 @@ BUILT = {
    'bklr is specified exactly: its output is Skeleton(merged layers) (declarative: the $required positions and the containers leading to them). TLC asserts on all 2^5 placements x 7 upper layers that the transcribed algorithm equals the declarative Skeleton, that the skeleton contains only markers and containers, is idempotent, and is non-empty exactly when evaluation fails; every case is run through the real bklr (output, run on its own output) and bkl (required-field error). Random trees with $required at random map values and list entries, 1-3 layers in mixed formats, are run the same way and judged by TLC.',
    'Trusts TLC, tv and the independent decoders; inputs carry no directives other than $required (as the property states for the agreement with bkl).',
    'TLA+ exact specification (BklTools!Skeleton) + TLC bounded placements with replay on bklr and bkl + trace validation', '6 C17'),
+
+ 'C05': ('model_checking',
+   'The format an invocation writes is a function of the specification (BklCli!ChooseFormat: -f, else the -o extension, else the first input\'s possibly virtual extension; invalid -f values and unknown -o extensions are errors); the byte-level encoders are environment functions. Every Emit event carries the stream that was evaluated, the bytes written, what bkl itself reads back from those bytes (through a file and MergeFile) and what the independent parsers (Python json, PyYAML with a YAML 1.2 core-schema resolver, tomllib) read back. TLC checks: the evaluation of the stream (specification) = bkl\'s re-read = the independent re-read in the format ChooseFormat demands, and compact / indented JSON and JSON-vs-YAML/TOML are told apart. Drivers: all 8x8x6 combinations of -f, -o extension and input extension on the real CLI, and random streams of 1-4 documents over 90 look-alike strings (values and keys), 64-bit integers, doubles, empty and nested containers through Output / OutputToWriter / OutputToFile in six formats and one CLI route each.',
+   'TLA+ cannot express the YAML/TOML/JSON grammars: that the bytes are standard is delegated to the independent decoders (trusted base). TOML streams are map-rooted and separated by --- lines (bkl\'s convention). Strings are printable, BMP, without control characters.',
+   'TLA+ format-selection machine + TLC trace validation of round-trip events with independent decoders (translation validation of the encoders)', '6 C05'),
+ 'C14': ('model_checking',
+   'TLC checks on 16 values x every transform and stack (<= Bound) that a list of transforms is a left fold, malformed arguments are errors, flags = tolist:= then prefix:--, and the values / join / prefix / flatten laws; every case not needing a byte codec is replayed on the library. base64, sha256 and the json/yaml/toml texts are environment functions of the specification: when an evaluation needs one, TLC reports the (name, argument) it needs, the harness answers with crypto/sha256, encoding/base64, the independent decoders (dec:*), or for enc:* bkl\'s public encoder whose text the independent decoder must read back as the encoded value (Codec events), and validation is repeated until no request is open. The driver adds random values with random stacks of up to three transforms, malformed arguments, and the inverse law $decode(f, $encode(f, v)) = v over two chained evaluations for six format names.',
+   'Values handed to $encode are $-free (encoding precedes un-escaping); what the TOML encoder prints for non-map values is outside the property (TOML cannot represent them).',
+   'TLA+ evaluator with codecs as environment functions answered by independent implementations + TLC bounded transform universe with replay + trace validation', '6 C14'),
 }
 PENDING = 'check not built yet (work in progress; DESIGN.md section 6 describes the planned decision procedure)'
 
